@@ -219,12 +219,26 @@ def drive(prop, tier, seed, only, scratch, t_start):
         random.Random(seed).shuffle(jobs)
     else:
         jobs.sort(key=lambda j: -j[2]['timeout'])
+    if tier != 'quick':
+        jobs.sort(key=lambda j: j[0] != 'reach')            # (stable) the cheap reachability twins first: a budget must not starve them
     results = {}
+    # wall budget of a tier (seconds): shards that have not STARTED when it is used up are not run and are reported as
+    # inconclusive ("not run"), never as held. The quick tier has none; the thorough tier is bounded so that the command
+    # terminates in a known time (VERIF_BUDGET_S overrides; 0 = unbounded).
+    budget = float(os.environ.get('VERIF_BUDGET_S', '0' if tier == 'quick' else '1500') or 0)
+
+    def guarded(spec, hard):
+        if budget and time.time() - t_start > budget:
+            return dict(verdict='UNKNOWN', message='not run: the wall budget of the %s tier (%ds) was used up' % (tier, budget), wall_s=0)
+        if budget and spec['timeout'] > 600:
+            spec = dict(spec, timeout=600)                  # under a budget no single shard may take more than 10 CPU-minutes
+            hard = spec['timeout'] * 1.6 + 60
+        return run_worker(spec, scratch, hard)
     with concurrent.futures.ThreadPoolExecutor(max_workers=NCPU) as ex:
         futs = {}
         for kind, c, spec in jobs:
             hard = spec['timeout'] * 1.6 + 60
-            futs[ex.submit(run_worker, spec, scratch, hard)] = (kind, c)
+            futs[ex.submit(guarded, spec, hard)] = (kind, c)
         for fut in concurrent.futures.as_completed(futs):
             kind, c = futs[fut]
             results[(kind, c['name'])] = fut.result()
